@@ -1,6 +1,8 @@
 package main
 
 import (
+	"runtime/debug"
+	"encoding/json"
 	"flag"
 	"fmt"
 	"os"
@@ -73,6 +75,9 @@ func discharge(obls []*Oblig, workers int) {
 }
 
 func (o *Oblig) OK() bool {
+	if o.Soft {
+		return true
+	}
 	if o.Cover {
 		return o.Res != nil && o.Res.Status == "sat"
 	}
@@ -95,7 +100,7 @@ func cmdVC(args []string) {
 	for _, name := range fs.Args() {
 		var fulls []string
 		for f := range prog.Funcs {
-			if f == name || strings.HasSuffix(f, "/"+name) || strings.HasSuffix(f, "."+name) {
+			if f == name || strings.HasSuffix(f, "/"+name) || (strings.HasSuffix(f, "."+name) && strings.HasPrefix(f, "github.com/tdewolff/minify/")) {
 				fulls = append(fulls, f)
 			}
 		}
@@ -151,8 +156,41 @@ func main() {
 	switch os.Args[1] {
 	case "vc":
 		cmdVC(os.Args[2:])
+	case "bounded":
+		cmdBounded(os.Args[2:])
+	case "bounded-worker":
+		cmdBoundedWorker()
 	default:
 		fmt.Println("unknown command", os.Args[1])
 		os.Exit(2)
+	}
+}
+
+func cmdBounded(args []string) {
+	debug.SetGCPercent(400)
+	fs := flag.NewFlagSet("bounded", flag.ExitOnError)
+	n := fs.Int("n", 4, "length bound")
+	workers := fs.Int("w", 16, "workers")
+	fs.Parse(args)
+	prog, err := LoadProgram(repoDir, []string{"./..."})
+	if err != nil {
+		fmt.Println("load error:", err)
+		os.Exit(2)
+	}
+	for _, name := range fs.Args() {
+		full := ""
+		for f := range prog.Funcs {
+			if strings.HasSuffix(f, "."+name) {
+				full = f
+			}
+		}
+		var r *BResult
+		if *workers <= 1 {
+			r, _ = exploreBounded(prog, full, *n, nil, 0, time.Time{})
+		} else {
+			r = runBoundedParallel(prog, full, *n, *workers, 0)
+		}
+		b, _ := json.MarshalIndent(r, "", " ")
+		fmt.Println(string(b))
 	}
 }
